@@ -23,6 +23,8 @@ CONSTANTS
   NetMode,      \* "fifo" | "bag"
   MaxDup,       \* "bag": budget of duplicate deliveries
   MaxDrop,      \* "bag": budget of drops
+  AllPol,       \* TRUE: both parties' policies range over all 64 policy sets (Pol is ignored)
+  MaxOffer,     \* budget of attacker-made offers (queries / whitespace tags with arbitrary version lists)
   Export        \* TRUE: print the schedule of every transition
 
 Parties == {"A", "B"}
@@ -56,8 +58,13 @@ Uses(s, id) == s.ax = id \/ s.cur = id
 
 SecEvents(evs) == SelectSeq(evs, LAMBDA e : e \in {"sec:GoneSecure", "sec:GoneInsecure", "sec:StillSecure"})
 
+AllPolicies == [v2 : BOOLEAN, v3 : BOOLEAN, req : BOOLEAN, wstag : BOOLEAN, wsstart : BOOLEAN, errstart : BOOLEAN]
+OfferSets == SUBSET {1, 2, 3, 4}
+SetToSeq(S) == (IF 1 \in S THEN <<1>> ELSE <<>>) \o (IF 2 \in S THEN <<2>> ELSE <<>>) \o (IF 3 \in S THEN <<3>> ELSE <<>>) \o (IF 4 \in S THEN <<4>> ELSE <<>>)
+
 Init ==
-  /\ st = [p \in Parties |-> InitParty(p, Pol[p], Ver0[p])]
+  /\ IF AllPol THEN \E pa, pb \in AllPolicies : st = [p \in Parties |-> InitParty(p, IF p = "A" THEN pa ELSE pb, Ver0[p])]
+     ELSE st = [p \in Parties |-> InitParty(p, Pol[p], Ver0[p])]
   /\ net = [p \in Parties |-> <<>>]
   /\ nx = [p \in Parties |-> 0]
   /\ nt = 0
@@ -69,7 +76,7 @@ Init ==
   /\ leaks = 0
   /\ txlog = <<>>
   /\ phase = IF Prelude # <<>> \/ PreludeDrain THEN "setup" ELSE "free"
-  /\ budget = [tick |-> MaxTick, end |-> MaxEnd, query |-> MaxQuery, extra |-> MaxExtra, dup |-> MaxDup, drop |-> MaxDrop]
+  /\ budget = [tick |-> MaxTick, end |-> MaxEnd, query |-> MaxQuery, extra |-> MaxExtra, dup |-> MaxDup, drop |-> MaxDrop, offer |-> MaxOffer]
   /\ delivered = [p \in Parties |-> <<>>]
   /\ accepted = [p \in Parties |-> <<>>]
   /\ rejects = 0
@@ -84,7 +91,7 @@ Effect(p, r, step, own) ==
   /\ evlog' = [evlog EXCEPT ![p] = @ \o SecEvents(r.evs)]
   /\ disclosedEver' = [disclosedEver EXCEPT ![p] = @ \cup UNION {r.out[i].discl : i \in {j \in DOMAIN r.out : r.out[j].t = "D"}}]
   /\ leaks' = leaks + Cardinality({i \in DOMAIN r.out : r.out[i].t = "P" /\ r.out[i].text # NoText /\
-                       (step.a # "Send" \/ st[p].ms \in {"enc", "fin"} \/ st[p].pol.req)})
+                       OTREnabled(st[p]) /\ (step.a # "Send" \/ st[p].ms \in {"enc", "fin"} \/ st[p].pol.req)})
   /\ txlog' = txlog \o [i \in 1..Len(SelectSeq(r.out, LAMBDA m : m.t = "D" /\ m.text # NoText)) |->
                         LET m == SelectSeq(r.out, LAMBDA mm : mm.t = "D" /\ mm.text # NoText)[i] IN <<m.text, m.rs>>]
   /\ path' = IF Export THEN Append(path, step) ELSE path
@@ -202,8 +209,20 @@ Drop(p) ==
 
 FreeDeliver(p) == phase = "free" /\ NetMode = "fifo" /\ Deliver(p) /\ pc' = pc
 
+\* an offer with an arbitrary version list, made by anybody (offers are not authenticated)
+InjectOffer(p) ==
+  /\ phase = "free" /\ budget.offer > 0
+  /\ \E vs \in OfferSets : \E tagged \in BOOLEAN :
+       /\ (tagged => vs \subseteq {2, 3})
+       /\ net' = [net EXCEPT ![p] = Append(@, IF tagged THEN [t |-> "P", text |-> 0, tag |-> SetToSeq(vs), tagged |-> TRUE]
+                                               ELSE [t |-> "Q", vs |-> SetToSeq(vs)])]
+       /\ path' = IF Export THEN Append(path, [a |-> "Offer", p |-> p, vs |-> SetToSeq(vs), tagged |-> tagged]) ELSE path
+  /\ budget' = [budget EXCEPT !.offer = @ - 1]
+  /\ UNCHANGED <<st, nx, nt, nsend, pc, phase, delivered, accepted, rejects, evlog, used, disclosedEver, leaks, txlog>>
+
 Step ==
   \/ PreludeStep
+  \/ \E p \in Parties : InjectOffer(p)
   \/ \E p \in Parties :
        \/ FreeDeliver(p)
        \/ UserSend(p) \/ UserQuery(p) \/ UserEnd(p) \/ UserTick(p) \/ UserExtra(p)
@@ -285,6 +304,21 @@ AgreeInv ==
   (st["A"].ms = "enc" /\ st["B"].ms = "enc" /\ st["A"].sess = st["B"].sess) =>
      /\ st["A"].peer = "B" /\ st["B"].peer = "A"
      /\ st["A"].rev # st["B"].rev
+
+\* C15: own tag valid once set; the bound peer tag is a valid tag; bound peers never change
+TagInv == \A p \in Parties : /\ st[p].otag \in {0, TagOf(p)}
+                            /\ st[p].ttag >= 0
+                            /\ (st[p].ttag # 0 => st[p].ttag = TagOf(Other(p)))
+
+\* C16: a conversation only ever speaks a version its policy allows
+AllowedV(s) == (IF s.pol.v2 THEN {2} ELSE {}) \cup (IF s.pol.v3 THEN {3} ELSE {})
+VersionAllowed == \A p \in Parties : st[p].ver = 0 \/ st[p].ver \in AllowedV(st[p])
+\* every binary message in flight was emitted by a party whose policy allows its version
+NoForbiddenOnWire == \A p \in Parties : \A i \in DOMAIN net[p] :
+   LET m == net[p][i] IN m.t \in {"DHC", "DHK", "RS", "SIG", "D"} => m.v \in AllowedV(st[Other(p)])
+\* both committed => the common version is the highest one both allow
+HighestCommon == (st["A"].ver # 0 /\ st["B"].ver # 0 /\ st["A"].ver = st["B"].ver /\ st["A"].ms = "enc" /\ st["B"].ms = "enc")
+                   => st["A"].ver \in AllowedV(st["A"]) \cap AllowedV(st["B"])
 
 \* C07: the key exchange completes
 BothEncrypted == /\ st["A"].ms = "enc" /\ st["B"].ms = "enc"
